@@ -32,6 +32,11 @@ CHECKS = {
             "For every tree within the bound (<=3 leaves quick, <=4 thorough; depth<=2, sampled depth 3) z3 decides for ALL leaf values and ALL leaf dimensions that acceptance <=> well-formedness and that the returned scale factor and dimension equal the value and dimensional product.",
             "Trusted: z3, vlib/qspec.py (semantics written from the statement), vlib/lift.py stubs, SymPy's canonicalisation of the input tree. Finite reals only; infinite/NaN leaves and complex factors are outside.",
             "3.5"),
+    "C06": ("L", "other",
+            "lifted native execution of the real symbolic-inference collectors on enumerated trees over symbols with symbolic declared dimensions; per-path z3 assertion against the statement's compositional semantics, Sym2SMT value-equality, lifted commuting diagram with the quantity collector",
+            "For every tree within the bound z3 decides for ALL declared dimension vectors and ALL quantity values that inference accepts exactly the well-formed inputs, returns the compositional dimension and a value-equal expression, and that substituting non-zero quantities gives the same dimension through the real quantity collector.",
+            "Trusted: z3, vlib/qspec.ispec, vlib/lift.py stubs. Zero-ness that is semantic rather than literal (0**x bases, cancelling nested sums, zero-valued dimensional exponents) is excluded by stated assumptions; infinite/NaN literals are checked on a finite concrete list.",
+            "3.6"),
 }
 
 NOT_APPLICABLE = {
